@@ -242,11 +242,11 @@ def judge_lp(ex, ref, probe_cap=0, probe_rng=None, counters=None):
 
     # ---- C16 (ii): order of optimisation lines
     opt_lines = [l for l in sh['info'] if l.startswith('optimisation:')]
-    exp_kw = [rm.INFO_KEYWORDS[c[0]] for c in crits]
+    exp_kw = [c[0] for c in crits]
     if status == 'Optimal':
-        got_ok = len(opt_lines) == len(exp_kw) and all(k in l for k, l in zip(exp_kw, opt_lines))
+        got_ok = len(opt_lines) == len(exp_kw) and all(rm.line_matches(k, l) for k, l in zip(exp_kw, opt_lines))
     else:
-        got_ok = len(opt_lines) <= len(exp_kw) and all(k in l for k, l in zip(exp_kw, opt_lines))
+        got_ok = len(opt_lines) <= len(exp_kw) and all(rm.line_matches(k, l) for k, l in zip(exp_kw, opt_lines))
         # "only the prefix up to the first solve that does not reach Optimal is reported": when the
         # trace lets us locate that solve, nothing after its criterion may be listed
         ev = ex['events']
